@@ -18,18 +18,27 @@ pub fn calc_witness<I: IntoIterator<Item = (String, Vec<Fr>)>>(
     inputs: I,
     graph_data: &[u8],
 ) -> Vec<Fr> {
+    try_calc_witness(inputs, graph_data).unwrap_or_else(|e| panic!("{}", e))
+}
+
+/// Same as [`calc_witness`], but reports inputs that do not fit the graph's declared input signals
+/// (unknown name, wrong number of values) as an error instead of panicking.
+pub fn try_calc_witness<I: IntoIterator<Item = (String, Vec<Fr>)>>(
+    inputs: I,
+    graph_data: &[u8],
+) -> Result<Vec<Fr>, String> {
     let inputs: HashMap<String, Vec<U256>> = inputs
         .into_iter()
         .map(|(key, value)| (key, value.iter().map(fr_to_u256).collect()))
         .collect();
 
     let (nodes, signals, input_mapping): (Vec<Node>, Vec<usize>, InputSignalsInfo) =
-        deserialize_witnesscalc_graph(std::io::Cursor::new(graph_data)).unwrap();
+        deserialize_witnesscalc_graph(std::io::Cursor::new(graph_data)).map_err(|e| e.to_string())?;
 
     let mut inputs_buffer = get_inputs_buffer(get_inputs_size(&nodes, &input_mapping));
-    populate_inputs(&inputs, &input_mapping, &mut inputs_buffer);
+    populate_inputs(&inputs, &input_mapping, &mut inputs_buffer)?;
 
-    graph::evaluate(&nodes, inputs_buffer.as_slice(), &signals)
+    Ok(graph::evaluate(&nodes, inputs_buffer.as_slice(), &signals))
 }
 
 fn get_inputs_size(nodes: &[Node], inputs_info: &InputSignalsInfo) -> usize {
@@ -51,17 +60,20 @@ fn populate_inputs(
     input_list: &HashMap<String, Vec<U256>>,
     inputs_info: &InputSignalsInfo,
     input_buffer: &mut [U256],
-) {
+) -> Result<(), String> {
     for (key, value) in input_list {
-        let (offset, len) = inputs_info[key];
+        let (offset, len) = *inputs_info
+            .get(key)
+            .ok_or_else(|| format!("Unknown input signal {}", key))?;
         if len != value.len() {
-            panic!("Invalid input length for {}", key);
+            return Err(format!("Invalid input length for {}", key));
         }
 
         for (i, v) in value.iter().enumerate() {
             input_buffer[offset + i] = *v;
         }
     }
+    Ok(())
 }
 
 /// Allocates inputs vec with position 0 set to 1
